@@ -43,6 +43,10 @@ pub struct RingStub {
     pub maps: RefCell<Vec<(usize, usize)>>,
     pub closes: Cell<u32>,
     pub fail_setup: Cell<bool>,
+    /// fail the k-th mmap of the ring (0-based) with ENOMEM, once
+    pub fail_mmap_at: Cell<Option<u32>>,
+    pub mmap_calls: Cell<u32>,
+    pub mmap_failed: Cell<bool>,
 }
 
 // ring header layout used by the stub (any layout is legal: the offsets travel in io_uring_params)
@@ -93,6 +97,9 @@ impl RingStub {
             maps: RefCell::new(Vec::new()),
             closes: Cell::new(0),
             fail_setup: Cell::new(false),
+            fail_mmap_at: Cell::new(None),
+            mmap_calls: Cell::new(0),
+            mmap_failed: Cell::new(false),
         };
         s.a32(s.sq_ring + H_HEAD).store(start, Ordering::SeqCst);
         s.a32(s.sq_ring + H_TAIL).store(start, Ordering::SeqCst);
@@ -200,6 +207,13 @@ impl Kernel for RingStub {
             sc::nr::MMAP => {
                 if a[4] as i32 != self.fd.get() {
                     return neg(9);
+                }
+                let k = self.mmap_calls.get();
+                self.mmap_calls.set(k + 1);
+                if self.fail_mmap_at.get() == Some(k) {
+                    self.fail_mmap_at.set(None);
+                    self.mmap_failed.set(true);
+                    return neg(12);
                 }
                 let r = match a[5] {
                     OFF_SQ_RING => self.sq_ring,
